@@ -160,6 +160,17 @@ func collect(sortAll, sortHist bool, drop string) string {
 		if len(keep) == 0 {
 			continue
 		}
+		// presence notifications come from their own goroutine: list them after the packets
+		// written by the connection's goroutine (queue order among themselves)
+		var syncPk, notif []string
+		for _, g := range keep {
+			if strings.Contains(g, "event=subscribe") || strings.Contains(g, "event=unsubscribe") {
+				notif = append(notif, g)
+			} else {
+				syncPk = append(syncPk, g)
+			}
+		}
+		keep = append(syncPk, notif...)
 		if sortAll {
 			sort.Strings(keep)
 		} else if sortHist {
@@ -270,7 +281,6 @@ func step(w []string, line string) string {
 			return collect(false, false, "")
 		case "close":
 			b.Clients[w[1]].CloseSocket()
-			time.Sleep(500 * time.Microsecond)
 			return collect(true, false, w[1])
 		case "dump":
 			nodes, pairs := b.Svc.VerifTrie().VerifTrieDump()
